@@ -164,6 +164,72 @@ def run_driver(lines, extra_args=None, timeout=3600):
     return dict(summary=summary, mismatches=mism, unknown=unk, info=info, seconds=dt, rc=rc)
 
 
+_HEX = set("0123456789abcdef")
+
+
+def _corrupt(line):
+    """the same observation line with its observed part damaged (the longest hex field after `=>`, else the last field)"""
+    f = line.split(" ")
+    start = f.index("=>") + 1 if "=>" in f else max(1, len(f) - 1)
+    best = None
+    for i in range(start, len(f)):
+        t = f[i]
+        if len(t) >= 2 and set(t) <= _HEX and not (t.isdigit() and len(t) == 10):
+            if best is None or len(t) > len(f[best]):
+                best = i
+    if best is None:
+        best = len(f) - 1
+        if best < start:
+            return None
+        f[best] = "X" + f[best]
+    else:
+        t = f[best]
+        f[best] = t[:-2] + ("00" if t[-2:] != "00" else "ff")
+    return " ".join(f)
+
+
+def negative_control(R, obs, label, every=None, floor=0.5, skip=lambda l: False, group=False):
+    """Is the judge awake?  A sample of the observation lines is handed to the driver again with the observed outcome damaged; the
+    driver must object to (at least a fifth of) them.  Catches an engine that has gone blind — a line tag claimed by another engine,
+    a comparison that stopped looking at a field — which would otherwise show up only as a quiet drop in `nontrivial`."""
+    # stateful engines stop judging a program / session after its first disagreement: damage at most one line per group
+    cands, taken, k = [], False, 0
+    for i, l in enumerate(obs):
+        if l == "R" or l.startswith(("S ", "WC ", "SN")):
+            taken, k = False, 0
+        if skip(l):
+            continue
+        k += 1
+        if not group or (not taken and k % 3 == 0):
+            cands.append(i)
+            taken = True
+    if not cands:
+        cands = [i for i, l in enumerate(obs) if not skip(l)][:1]
+    if not cands:
+        return
+    every = every or max(1, len(cands) // 150)
+    chosen = set(cands[::every][:400])
+    lines, n = [], 0
+    for i, l in enumerate(obs):
+        if i in chosen:
+            c = _corrupt(l)
+            if c is not None and c != l:
+                lines.append(c)
+                n += 1
+                continue
+        lines.append(l)
+    d = run_driver(lines)
+    hit = len(d["mismatches"]) + len(d["unknown"])
+    ok = n == 0 or hit >= max(1, int(n * floor))
+    R.oblige("negative control %s: the driver objects to damaged observations (%d of %d damaged lines reported)" % (label, hit, n),
+             "control", ok, "driver reported %d of %d" % (hit, n))
+    R.extra.setdefault("negative_control", {})[label] = dict(damaged=n, reported=hit)
+    if not ok:
+        R.violation("negative-control-" + label.replace("/", "-"), dict(
+            kind="tie-broken", summary="the Lean driver accepted %d of %d deliberately damaged observation lines of engine %s: the correspondence "
+                                       "check for this engine is not judging" % (n - hit, n, label), lines=lines[:50]), found_input=False)
+
+
 def run_harness(binary, engine, lines, args=None, timeout=3600, env=None):
     """pipe input lines to the Go harness engine; returns (output lines, stderr, rc)"""
     data = ("\n".join(lines) + "\n").encode()
